@@ -116,6 +116,8 @@ namespace vh
             const xt::xarray<double>* out = nullptr;  // last returned reference
             // stand-alone basin graphs bound to this graph (method -> object), kept across updates
             std::map<int, std::unique_ptr<fs::basin_graph<impl_t>>> bgs;
+            // eroder objects kept alive across steps ("eid" of the spl step)
+            std::map<long long, std::shared_ptr<void>> eroders;
         };
 
         std::unique_ptr<G> grid;
@@ -275,6 +277,9 @@ namespace vh
                 const std::string op = s["op"].as_str();
                 long long g = s.get_int("g", 0);
                 vj::obj o;
+                // optional steps are skipped when their graph could not be built
+                if (s.get_int("opt", 0) && !graphs.count(g))
+                    continue;
                 if (op == "new")
                 {
                     holder h;
